@@ -44,6 +44,28 @@ func ruleErrZero(e *Env, ruleName string, pkgs ...string) {
 	})
 }
 
+// ruleLimitAccept instantiates the part of C18.L that accept-exactly / round-trip properties depend on: no input
+// within the limit is rejected for its length (strict comparison, `!= 0` conjunct, the too-long sentinel produced
+// only on the too-long edge). Where the guard sits and what the error carries is C18's own business.
+func ruleLimitAccept(e *Env, ruleName string, pkgs ...string) {
+	for _, pkg := range pkgs {
+		sent := e.Var(ruleName, pkg, "ErrInputTooLong")
+		if sent == nil {
+			continue
+		}
+		e.Flow(func(c *flow.Ctx) {
+			c.RuleLimitZero(e.PkgFuncs(pkg), "MaxInputLength")
+			c.RuleSentinelOnlyInGuards(sent, e.PkgFuncs(pkg))
+			for i := range c.Out {
+				switch c.Out[i].Rule {
+				case "C18.L", "LIMIT0":
+					c.Out[i].Rule = ruleName
+				}
+			}
+		})
+	}
+}
+
 // ruleLimit instantiates C18.L for the parser entry points of the given packages under ruleName.
 func ruleLimit(e *Env, ruleName string, pkgs ...string) {
 	for _, pkg := range pkgs {
